@@ -15,9 +15,7 @@ def run(out, tier, seed, prop="C02"):
                 "added/removed/replaced, other keys, key bit flips, splices of two honest tokens, relabel to every other version/purpose "
                 "parser; decoder steered ok/fail/panic, validator accept/reject; every event validated against L0; "
                 "distinct = distinct presented (token text, key, assertion); non-trivial = presentations that parse")
-    r = C.tlc("MC_Ideal", "MC_Ideal_%s.cfg" % tier, "mc", prop.lower() + "-mc", workers=12, timeout=7200, heap="16g")
-    C.tlc_must_pass(r, "MC_Ideal")
-    out.add_tlc(r)
+    r = C.ideal_mc(out, tier, prop.lower(), ("tokens",))
     out.extra["mc_ideal_states"] = r.distinct
     # L1 (authenticate PAE(header, nonce, ciphertext, footer, assertion) with a full-length tag) refines L0's acceptance
     # rule against a byte-level attacker; broken variants of the construction must be rejected (non-vacuity)
